@@ -61,7 +61,18 @@ func sameCapture(a, b capture, id string) {
 
 func HarnessTunnelIsolation() {
 	x1 := symExchange("one")
-	x2 := symExchange("two")
+	var x2 exchange
+	if symChoice(2) == 1 {
+		// the later exchange addresses the SAME resource: what the earlier one left in the cache
+		// (and only that) may show, and it must show exactly as it does over plain HTTP
+		x2 = exchange{method: []string{"GET", "HEAD", "POST"}[symChoice(3)], path: x1.path, resp: x1.resp}
+		if symChoice(2) == 1 {
+			x2.rng = "bytes=0-0"
+		}
+		vReach("same-resource")
+	} else {
+		x2 = symExchange("two")
+	}
 	run := func(shared bool, viaPlain bool) capture {
 		e := newEnv(backendMem, 1<<30)
 		e.o.byPath = map[string]originResp{x1.path: x1.resp, x2.path: x2.resp}
